@@ -179,8 +179,10 @@ theorem solveInitialPoint_ok {KIw KIs : KktSolver α → Prop} {specs : List Kkt
     OkAnd (S.solveInitialPoint vars data st)
       (fun r => VarsSized n m r.2.1 ∧ KSized n m r.2.2 ∧ KIs r.2.2.kktsolver) := by
   have hneg : ∀ s : Array α, (Vec.negate s).size = s.size := fun s => Array.size_map ..
-  have key : OkAnd (S.solveInitialPoint vars data st) (fun r => KIs r.2.2.kktsolver) := by
-    unfold KktSys.solveInitialPoint
+  have key : ∀ vars : Vars α, VarsSized n m vars →
+      OkAnd (S.solveInitialPointCore vars data st) (fun r => KIs r.2.2.kktsolver) := by
+    intro vars hvars
+    unfold KktSys.solveInitialPointCore
     split
     · -- LP initialization
       dsimp only
@@ -239,7 +241,9 @@ theorem solveInitialPoint_ok {KIw KIs : KktSolver α → Prop} {specs : List Kkt
         simp only [pure_bind]
         rw [if_neg (by simp [hvars.s, hlz])]
         exact .pure hK2
-  obtain ⟨r, hr, hK'⟩ := key
+  obtain ⟨r, hr, hK'⟩ := key (zeroXSZ vars)
+    ⟨(zeroXSZ_size_x vars).trans hvars.x, (zeroXSZ_size_s vars).trans hvars.s, (zeroXSZ_size_z vars).trans hvars.z⟩
+  rw [← KktSys.solveInitialPoint_eq_core] at hr
   obtain ⟨h1, h2⟩ := solveInitialPoint_shape hr
   exact ⟨r, hr, hvars.of_shape h1, hS.of_shape h2, hK'⟩
 
